@@ -31,3 +31,5 @@ def run(prog, rep):
     r_flow.run_forward(prog, rep, which=('MultiTag',), mode='list:ndsize_t', rid='R-FORWARD-IDX', floor=4)
     from ..rules import r_key as _rkx
     _rkx.run_handles_only(prog, rep)
+    from ..rules import r_unit as _ru6
+    _ru6.run_scale_positions(prog, rep)
